@@ -7,7 +7,9 @@ use llfree::wrapper::{NvmAlloc, ZoneAlloc};
 use llfree::{Alloc, Error, FrameId, Init, LLFree, MetaData};
 
 use crate::case::{Ctx, RunOut};
-use crate::exec::{Call, ClassKind, Config, ErrKind, Outcome, create, exec, guarded, panic_signature, request};
+use crate::exec::{
+    Call, ClassKind, Config, ErrKind, Outcome, create, exec, guarded, panic_signature, request,
+};
 use crate::json::J;
 use crate::model::{Block, HUGE_FRAMES, HUGE_ORDER, Model, TREE_FRAMES, TREE_ORDER};
 use crate::oracle::{Props, Violation, check_views, compare_frames};
@@ -32,7 +34,13 @@ impl SpecialCase {
         Self {
             family: family.to_string(),
             seed,
-            n: if dense { 1 + (index as usize / 2) % (4 * TREE_FRAMES) } else if family == "Q4" { index as usize } else { 0 },
+            n: if dense {
+                1 + (index as usize / 2) % (4 * TREE_FRAMES)
+            } else if family == "Q4" {
+                index as usize
+            } else {
+                0
+            },
             flag: if dense { 1 + (index % 2) as u8 } else { 0 },
         }
     }
@@ -111,7 +119,11 @@ fn q2(case: &SpecialCase, ctx: &Ctx, rng: &mut Rng, out: &mut RunOut) {
     } else {
         rng.range(1, 4 * TREE_FRAMES)
     };
-    let kind = if rng.chance(1, 2) { ClassKind::Simple } else { ClassKind::Movable };
+    let kind = if rng.chance(1, 2) {
+        ClassKind::Simple
+    } else {
+        ClassKind::Movable
+    };
     let alloc_all = match case.flag {
         1 => false,
         2 => true,
@@ -134,28 +146,51 @@ fn q2(case: &SpecialCase, ctx: &Ctx, rng: &mut Rng, out: &mut RunOut) {
         .set("config", cfg.to_json())
         .set("schedule", "single-thread");
     let viol = |out: &mut RunOut, sig: &str, d: String| {
-        out.violations.push(Violation::new("C06", sig.to_string(), format!("{cfg:?}: {d}")));
+        out.violations.push(Violation::new(
+            "C06",
+            sig.to_string(),
+            format!("{cfg:?}: {d}"),
+        ));
     };
-    let bufs = unsafe { ctx.arenas.bufs(&cfg, rng.chance(1, 2), rng.below(256) as u8) };
+    let bufs = unsafe {
+        ctx.arenas
+            .bufs(&cfg, rng.chance(1, 2), rng.below(256) as u8)
+    };
     let alloc = match create(&cfg, cfg.init(), bufs) {
         Ok(Ok(a)) => a,
         Ok(Err(e)) => return viol(out, "init-error", format!("new returned {e:?}")),
         Err(Outcome::Panic { msg, loc }) => {
-            return viol(out, &format!("init-{}", panic_signature(&msg, &loc)), format!("new panicked: {msg} at {loc}"));
+            return viol(
+                out,
+                &format!("init-{}", panic_signature(&msg, &loc)),
+                format!("new panicked: {msg} at {loc}"),
+            );
         }
         Err(_) => return,
     };
     let mut vr = Rng::new(1);
-    let mut model = if alloc_all { Model::new_alloc(frames) } else { Model::new_free(frames) };
+    let mut model = if alloc_all {
+        Model::new_alloc(frames)
+    } else {
+        Model::new_free(frames)
+    };
     let mut views = |model: &Model, out: &mut RunOut, when: &str| -> bool {
         let mut v = Vec::new();
         check_views(&alloc, model, &mut vr, &mut v);
         if let Ok(Some((f, got, want))) = guarded(|| compare_frames(&alloc, model)) {
-            v.push(Violation::new("C06", "frame-state", format!("frame {f} free={got}, expected free={want}")));
+            v.push(Violation::new(
+                "C06",
+                "frame-state",
+                format!("frame {f} free={got}, expected free={want}"),
+            ));
         }
         let bad = !v.is_empty();
         for x in v {
-            out.violations.push(Violation::new("C06", format!("{}:{}", when, x.sig), format!("{cfg:?} {when}: {}", x.detail)));
+            out.violations.push(Violation::new(
+                "C06",
+                format!("{}:{}", when, x.sig),
+                format!("{cfg:?} {when}: {}", x.detail),
+            ));
         }
         bad
     };
@@ -183,11 +218,17 @@ fn q2(case: &SpecialCase, ctx: &Ctx, rng: &mut Rng, out: &mut RunOut) {
                 match r {
                     Ok((f, _)) => {
                         if f.0 >= frames {
-                            errs.push(("frame-beyond-range".into(), format!("get returned frame {} >= {frames}", f.0)));
+                            errs.push((
+                                "frame-beyond-range".into(),
+                                format!("get returned frame {} >= {frames}", f.0),
+                            ));
                             break;
                         }
                         if model.alloc[f.0] {
-                            errs.push(("frame-twice".into(), format!("get returned frame {} twice", f.0)));
+                            errs.push((
+                                "frame-twice".into(),
+                                format!("get returned frame {} twice", f.0),
+                            ));
                             break;
                         }
                         model.alloc[f.0] = true;
@@ -212,7 +253,9 @@ fn q2(case: &SpecialCase, ctx: &Ctx, rng: &mut Rng, out: &mut RunOut) {
         } else {
             // free every whole huge frame once at huge order, the rest once at base order
             let huges = frames / HUGE_FRAMES;
-            let mut order_blocks: Vec<Block> = (0..huges).map(|h| Block::new(h * HUGE_FRAMES, HUGE_ORDER)).collect();
+            let mut order_blocks: Vec<Block> = (0..huges)
+                .map(|h| Block::new(h * HUGE_FRAMES, HUGE_ORDER))
+                .collect();
             order_blocks.extend((huges * HUGE_FRAMES..frames).map(|f| Block::new(f, 0)));
             for b in &order_blocks {
                 let req = request(b.order, 0, if b.frame % 3 == 0 { Some(0) } else { None });
@@ -220,12 +263,18 @@ fn q2(case: &SpecialCase, ctx: &Ctx, rng: &mut Rng, out: &mut RunOut) {
                 match alloc.put(FrameId(b.frame), req) {
                     Ok(()) => model.apply_put(b),
                     Err(e) => {
-                        errs.push(("free-rejected".into(), format!("put({}, order {}) returned {e:?}", b.frame, b.order)));
+                        errs.push((
+                            "free-rejected".into(),
+                            format!("put({}, order {}) returned {e:?}", b.frame, b.order),
+                        ));
                         break;
                     }
                 }
                 if alloc.put(FrameId(b.frame), req).is_ok() {
-                    errs.push(("second-free-accepted".into(), format!("second put({}, order {}) succeeded", b.frame, b.order)));
+                    errs.push((
+                        "second-free-accepted".into(),
+                        format!("second put({}, order {}) succeeded", b.frame, b.order),
+                    ));
                     break;
                 }
             }
@@ -240,12 +289,24 @@ fn q2(case: &SpecialCase, ctx: &Ctx, rng: &mut Rng, out: &mut RunOut) {
             }
         }
         Err(Outcome::Panic { msg, loc }) => {
-            return viol(out, &panic_signature(&msg, &loc), format!("panicked: {msg} at {loc}"));
+            return viol(
+                out,
+                &panic_signature(&msg, &loc),
+                format!("panicked: {msg} at {loc}"),
+            );
         }
         Err(_) => return,
     }
     if out.violations.is_empty() {
-        views(&model, out, if alloc_all { "after-freeing-everything" } else { "after-exhaustion" });
+        views(
+            &model,
+            out,
+            if alloc_all {
+                "after-freeing-everything"
+            } else {
+                "after-exhaustion"
+            },
+        );
     }
     if alloc_all && out.violations.is_empty() {
         // everything was freed: now exactly the managed frames must be allocatable again,
@@ -256,7 +317,11 @@ fn q2(case: &SpecialCase, ctx: &Ctx, rng: &mut Rng, out: &mut RunOut) {
             let mut calls = 0u64;
             let mut fails = 0;
             loop {
-                let order = if fails == 0 { *rr.pick(&[0usize, 0, 1, 1, 2, 3, 5]) } else { 0 };
+                let order = if fails == 0 {
+                    *rr.pick(&[0usize, 0, 1, 1, 2, 3, 5])
+                } else {
+                    0
+                };
                 // a request larger than the managed range is (rightly) an argument error
                 let order = if (1usize << order) > frames { 0 } else { order };
                 let req = request(order, 0, Some(0));
@@ -272,7 +337,14 @@ fn q2(case: &SpecialCase, ctx: &Ctx, rng: &mut Rng, out: &mut RunOut) {
                     Ok((f, _)) => {
                         let b = Block::new(f.0, order);
                         if b.end() > frames || !Model::aligned(&b) {
-                            errs.push(("block-beyond-range".into(), format!("get(order {order}) returned frames {}..{} of {frames}", b.frame, b.end())));
+                            errs.push((
+                                "block-beyond-range".into(),
+                                format!(
+                                    "get(order {order}) returned frames {}..{} of {frames}",
+                                    b.frame,
+                                    b.end()
+                                ),
+                            ));
                             break;
                         }
                         if !model.is_free_block(&b) {
@@ -293,7 +365,13 @@ fn q2(case: &SpecialCase, ctx: &Ctx, rng: &mut Rng, out: &mut RunOut) {
                 }
             }
             if errs.is_empty() && model.free_frames() != 0 {
-                errs.push(("not-all-frames-allocatable".into(), format!("{} of {frames} frames could not be allocated again", model.free_frames())));
+                errs.push((
+                    "not-all-frames-allocatable".into(),
+                    format!(
+                        "{} of {frames} frames could not be allocated again",
+                        model.free_frames()
+                    ),
+                ));
             }
             (errs, calls)
         });
@@ -304,14 +382,26 @@ fn q2(case: &SpecialCase, ctx: &Ctx, rng: &mut Rng, out: &mut RunOut) {
                     viol(out, &format!("realloc-{sig}"), d);
                 }
             }
-            Err(Outcome::Panic { msg, loc }) => viol(out, &panic_signature(&msg, &loc), format!("panicked: {msg} at {loc}")),
+            Err(Outcome::Panic { msg, loc }) => viol(
+                out,
+                &panic_signature(&msg, &loc),
+                format!("panicked: {msg} at {loc}"),
+            ),
             Err(_) => {}
         }
         if out.violations.is_empty() {
             views(&model, out, "after-allocating-everything-again");
         }
     }
-    bump(out, if alloc_all { "alloc_all_runs" } else { "free_all_runs" }, 1);
+    bump(
+        out,
+        if alloc_all {
+            "alloc_all_runs"
+        } else {
+            "free_all_runs"
+        },
+        1,
+    );
     if frames % HUGE_FRAMES != 0 {
         bump(out, "partial_last_huge_frame", 1);
     }
@@ -325,7 +415,13 @@ fn q2(case: &SpecialCase, ctx: &Ctx, rng: &mut Rng, out: &mut RunOut) {
 
 fn q4(case: &SpecialCase, ctx: &Ctx, rng: &mut Rng, out: &mut RunOut) {
     let trees = rng.range(1, 2);
-    let frames = (trees * TREE_FRAMES).saturating_sub(if rng.chance(1, 3) { rng.range(1, HUGE_FRAMES + 70) } else { 0 }).max(64);
+    let frames = (trees * TREE_FRAMES)
+        .saturating_sub(if rng.chance(1, 3) {
+            rng.range(1, HUGE_FRAMES + 70)
+        } else {
+            0
+        })
+        .max(64);
     let cfg = Config {
         frames,
         alloc_all: false,
@@ -350,7 +446,11 @@ fn q4(case: &SpecialCase, ctx: &Ctx, rng: &mut Rng, out: &mut RunOut) {
     let idx = case.n;
     let exhaustive: Option<(bool, usize, usize)> = match idx % 4 {
         1 => Some((true, (idx / 4) % 256, rng.below(TREE_FRAMES / 64))),
-        3 => Some((false, (idx / 4) % 3usize.pow(crate::model::TREE_HUGE as u32), 0)),
+        3 => Some((
+            false,
+            (idx / 4) % 3usize.pow(crate::model::TREE_HUGE as u32),
+            0,
+        )),
         _ => None,
     };
     let unit_order = match exhaustive {
@@ -378,13 +478,19 @@ fn q4(case: &SpecialCase, ctx: &Ctx, rng: &mut Rng, out: &mut RunOut) {
             let kind = match exhaustive {
                 Some((true, pat, row)) => {
                     let rel = f - tree_base;
-                    if rel / 64 == row { ((pat >> ((rel % 64) / 8)) & 1 == 0) as usize } else { 1 }
+                    if rel / 64 == row {
+                        ((pat >> ((rel % 64) / 8)) & 1 == 0) as usize
+                    } else {
+                        1
+                    }
                 }
-                Some((false, pat, _)) => match (pat / 3usize.pow(((f - tree_base) / HUGE_FRAMES) as u32)) % 3 {
-                    0 => 0,
-                    1 => 1,
-                    _ => 3,
-                },
+                Some((false, pat, _)) => {
+                    match (pat / 3usize.pow(((f - tree_base) / HUGE_FRAMES) as u32)) % 3 {
+                        0 => 0,
+                        1 => 1,
+                        _ => 3,
+                    }
+                }
                 None => kind,
             };
             pattern.push(kind as u8);
@@ -393,7 +499,11 @@ fn q4(case: &SpecialCase, ctx: &Ctx, rng: &mut Rng, out: &mut RunOut) {
                 if !model.is_free_block(&b) {
                     return true;
                 }
-                match alloc.lower.get(llfree::verif::row_id(frame / 64), order, Some(FrameId(frame))) {
+                match alloc.lower.get(
+                    llfree::verif::row_id(frame / 64),
+                    order,
+                    Some(FrameId(frame)),
+                ) {
                     Ok(_) => {
                         model.apply_get(&b);
                         true
@@ -423,17 +533,29 @@ fn q4(case: &SpecialCase, ctx: &Ctx, rng: &mut Rng, out: &mut RunOut) {
     match r {
         Ok(Ok(())) => {}
         Ok(Err(d)) => {
-            out.violations.push(Violation::new("C12", "targeted-lower-get-of-free-block-failed", format!("{cfg:?}: {d}")));
+            out.violations.push(Violation::new(
+                "C12",
+                "targeted-lower-get-of-free-block-failed",
+                format!("{cfg:?}: {d}"),
+            ));
             return;
         }
         Err(Outcome::Panic { msg, loc }) => {
-            out.violations.push(Violation::new("C12", panic_signature(&msg, &loc), format!("{cfg:?}: pattern building panicked: {msg} at {loc}")));
+            out.violations.push(Violation::new(
+                "C12",
+                panic_signature(&msg, &loc),
+                format!("{cfg:?}: pattern building panicked: {msg} at {loc}"),
+            ));
             return;
         }
         Err(_) => return,
     }
     if let Ok(Some((f, got, want))) = guarded(|| compare_frames(&alloc, &model)) {
-        out.violations.push(Violation::new("C12", "pattern-state", format!("{cfg:?}: after building: frame {f} free={got} expected {want}")));
+        out.violations.push(Violation::new(
+            "C12",
+            "pattern-state",
+            format!("{cfg:?}: after building: frame {f} free={got} expected {want}"),
+        ));
         return;
     }
     let mut h = Hasher::default();
@@ -472,23 +594,44 @@ fn q4(case: &SpecialCase, ctx: &Ctx, rng: &mut Rng, out: &mut RunOut) {
                         if exists {
                             return Some(Violation::new(
                                 "C12",
-                                format!("search-missed-free-block:o{}", if order > 6 { if order >= HUGE_ORDER { "huge" } else { "rows" } } else { "row" }),
-                                format!("{cfg:?}: lower.get(row {row}, order {order}) returned {e:?}, but tree {t} contains an aligned free block of that order"),
+                                format!(
+                                    "search-missed-free-block:o{}",
+                                    if order > 6 {
+                                        if order >= HUGE_ORDER { "huge" } else { "rows" }
+                                    } else {
+                                        "row"
+                                    }
+                                ),
+                                format!(
+                                    "{cfg:?}: lower.get(row {row}, order {order}) returned {e:?}, but tree {t} contains an aligned free block of that order"
+                                ),
                             ));
                         }
                     }
                     Ok(f) => {
                         found += 1;
                         let b = Block::new(f.0, order);
-                        if !Model::aligned(&b) || b.tree() != t || b.end() > frames || !model.is_free_block(&b) {
+                        if !Model::aligned(&b)
+                            || b.tree() != t
+                            || b.end() > frames
+                            || !model.is_free_block(&b)
+                        {
                             return Some(Violation::new(
                                 "C12",
                                 "search-returned-bad-block",
-                                format!("{cfg:?}: lower.get(row {row}, order {order}) returned frame {} which is not an aligned free block of tree {t}", f.0),
+                                format!(
+                                    "{cfg:?}: lower.get(row {row}, order {order}) returned frame {} which is not an aligned free block of tree {t}",
+                                    f.0
+                                ),
                             ));
                         }
                         if sample.len() < 6 {
-                            sample.push(J::obj().set("row_hint", row).set("order", order).set("found", f.0));
+                            sample.push(
+                                J::obj()
+                                    .set("row_hint", row)
+                                    .set("order", order)
+                                    .set("found", f.0),
+                            );
                         }
                         model.apply_get(&b);
                         let exact = probes % 8 == 0;
@@ -496,21 +639,34 @@ fn q4(case: &SpecialCase, ctx: &Ctx, rng: &mut Rng, out: &mut RunOut) {
                             return Some(Violation::new(
                                 "C12",
                                 "search-marked-other-frames",
-                                format!("{cfg:?}: after lower.get(row {row}, order {order}) -> {}: frame {x} free={got} expected {want}", f.0),
+                                format!(
+                                    "{cfg:?}: after lower.get(row {row}, order {order}) -> {}: frame {x} free={got} expected {want}",
+                                    f.0
+                                ),
                             ));
                         }
                         if alloc.lower.is_free(f, order) {
-                            return Some(Violation::new("C12", "search-did-not-mark-block", format!("{cfg:?}: block {} order {order} still free", f.0)));
+                            return Some(Violation::new(
+                                "C12",
+                                "search-did-not-mark-block",
+                                format!("{cfg:?}: block {} order {order} still free", f.0),
+                            ));
                         }
                         if let Err(e) = alloc.lower.put(f, order) {
-                            return Some(Violation::new("C12", "undo-put-failed", format!("{cfg:?}: lower.put({}, {order}) returned {e:?}", f.0)));
+                            return Some(Violation::new(
+                                "C12",
+                                "undo-put-failed",
+                                format!("{cfg:?}: lower.put({}, {order}) returned {e:?}", f.0),
+                            ));
                         }
                         model.apply_put(&b);
                         if exact && let Some((x, got, want)) = compare_frames(&alloc, &model) {
                             return Some(Violation::new(
                                 "C12",
                                 "undo-state",
-                                format!("{cfg:?}: after undoing: frame {x} free={got} expected {want}"),
+                                format!(
+                                    "{cfg:?}: after undoing: frame {x} free={got} expected {want}"
+                                ),
                             ));
                         }
                     }
@@ -523,7 +679,11 @@ fn q4(case: &SpecialCase, ctx: &Ctx, rng: &mut Rng, out: &mut RunOut) {
         Ok(Some(v)) => out.violations.push(v),
         Ok(None) => {}
         Err(Outcome::Panic { msg, loc }) => {
-            out.violations.push(Violation::new("C12", panic_signature(&msg, &loc), format!("{cfg:?}: probing panicked: {msg} at {loc}")));
+            out.violations.push(Violation::new(
+                "C12",
+                panic_signature(&msg, &loc),
+                format!("{cfg:?}: probing panicked: {msg} at {loc}"),
+            ));
         }
         Err(_) => {}
     }
@@ -560,7 +720,10 @@ impl Mapping {
             )
         };
         assert!(base != libc::MAP_FAILED);
-        Self { base: base.cast(), len }
+        Self {
+            base: base.cast(),
+            len,
+        }
     }
 }
 impl Drop for Mapping {
@@ -573,11 +736,20 @@ fn q8(rng: &mut Rng, out: &mut RunOut) {
     let tree_bytes = Frame::SIZE << TREE_ORDER;
     let trees = rng.range(1, 3);
     // zone length in frames, including the metadata tail and the header page
-    let total = trees * TREE_FRAMES + if rng.chance(1, 2) { rng.range(3, TREE_FRAMES / 2) } else { rng.range(3, 40) };
+    let total = trees * TREE_FRAMES
+        + if rng.chance(1, 2) {
+            rng.range(3, TREE_FRAMES / 2)
+        } else {
+            rng.range(3, 40)
+        };
     let slot = rng.below(3);
     let map = Mapping::new((total + TREE_FRAMES * 4) * Frame::SIZE + tree_bytes);
     let aligned = (map.base as usize).next_multiple_of(tree_bytes) + slot * tree_bytes;
-    let kind = if rng.chance(1, 2) { ClassKind::Simple } else { ClassKind::Movable };
+    let kind = if rng.chance(1, 2) {
+        ClassKind::Simple
+    } else {
+        ClassKind::Movable
+    };
     let slots: Vec<usize> = (0..kind.classes()).map(|_| rng.range(1, 2)).collect();
     let probe_cfg = Config {
         frames: total,
@@ -588,9 +760,15 @@ fn q8(rng: &mut Rng, out: &mut RunOut) {
     let classing = probe_cfg.classing();
     let ms = LLFree::metadata_size(&classing, total);
     let viol = |out: &mut RunOut, sig: &str, d: String| {
-        out.violations.push(Violation::new("C17", sig.to_string(), format!("zone of {total} frames at {aligned:#x}: {d}")));
+        out.violations.push(Violation::new(
+            "C17",
+            sig.to_string(),
+            format!("zone of {total} frames at {aligned:#x}: {d}"),
+        ));
     };
-    let zone = |len: usize| -> &'static mut [Frame] { unsafe { std::slice::from_raw_parts_mut(aligned as *mut Frame, len) } };
+    let zone = |len: usize| -> &'static mut [Frame] {
+        unsafe { std::slice::from_raw_parts_mut(aligned as *mut Frame, len) }
+    };
     let pool = Pool::default();
     let vol = |n: usize| pool.get(n);
     let mut h = Hasher::default();
@@ -599,28 +777,59 @@ fn q8(rng: &mut Rng, out: &mut RunOut) {
     h.add_bytes(format!("{slots:?}{kind:?}").as_bytes());
 
     // recover of an untouched region must fail
-    match guarded(|| NvmAlloc::<LLFree>::create(zone(total), true, &classing, vol(ms.local), vol(ms.trees)).map(|_| ())) {
+    match guarded(|| {
+        NvmAlloc::<LLFree>::create(zone(total), true, &classing, vol(ms.local), vol(ms.trees))
+            .map(|_| ())
+    }) {
         Ok(Err(Error::Initialization)) => bump(out, "recover_untouched_rejected", 1),
-        Ok(r) => return viol(out, "recover-of-untouched-region", format!("create(recover=true) on an untouched region returned {r:?}")),
-        Err(Outcome::Panic { msg, loc }) => return viol(out, &panic_signature(&msg, &loc), format!("create panicked: {msg} at {loc}")),
+        Ok(r) => {
+            return viol(
+                out,
+                "recover-of-untouched-region",
+                format!("create(recover=true) on an untouched region returned {r:?}"),
+            );
+        }
+        Err(Outcome::Panic { msg, loc }) => {
+            return viol(
+                out,
+                &panic_signature(&msg, &loc),
+                format!("create panicked: {msg} at {loc}"),
+            );
+        }
         Err(_) => return,
     }
     // create
-    let nvm = match guarded(|| NvmAlloc::<LLFree>::create(zone(total), false, &classing, vol(ms.local), vol(ms.trees))) {
+    let nvm = match guarded(|| {
+        NvmAlloc::<LLFree>::create(zone(total), false, &classing, vol(ms.local), vol(ms.trees))
+    }) {
         Ok(Ok(a)) => a,
         Ok(Err(e)) => return viol(out, "create-error", format!("create returned {e:?}")),
-        Err(Outcome::Panic { msg, loc }) => return viol(out, &panic_signature(&msg, &loc), format!("create panicked: {msg} at {loc}")),
+        Err(Outcome::Panic { msg, loc }) => {
+            return viol(
+                out,
+                &panic_signature(&msg, &loc),
+                format!("create panicked: {msg} at {loc}"),
+            );
+        }
         Err(_) => return,
     };
     let managed = nvm.frames();
     let offset = nvm.alloc.offset;
     if offset != aligned / Frame::SIZE {
-        return viol(out, "zone-offset", format!("offset {offset} != {}", aligned / Frame::SIZE));
+        return viol(
+            out,
+            "zone-offset",
+            format!("offset {offset} != {}", aligned / Frame::SIZE),
+        );
     }
     // the metadata must start at or after the end of the managed frames
     let meta_pages = ms.lower.div_ceil(Frame::SIZE) + 1;
     if managed + meta_pages > total {
-        return viol(out, "managed-frames-overlap-metadata", format!("{managed} managed frames + {meta_pages} metadata pages > {total}"));
+        return viol(
+            out,
+            "managed-frames-overlap-metadata",
+            format!("{managed} managed frames + {meta_pages} metadata pages > {total}"),
+        );
     }
     let first_meta_frame = offset + total - meta_pages;
     // plain allocator of the same size to run in lock-step
@@ -662,7 +871,13 @@ fn q8(rng: &mut Rng, out: &mut RunOut) {
         )
     }) {
         Ok(Ok(a)) => a,
-        Ok(Err(e)) => return viol(out, "zone-create-error", format!("ZoneAlloc::create returned {e:?}")),
+        Ok(Err(e)) => {
+            return viol(
+                out,
+                "zone-create-error",
+                format!("ZoneAlloc::create returned {e:?}"),
+            );
+        }
         _ => return,
     };
     // misaligned offset must be rejected
@@ -681,7 +896,13 @@ fn q8(rng: &mut Rng, out: &mut RunOut) {
         .map(|_| ())
     }) {
         Ok(Err(Error::Initialization)) => bump(out, "misaligned_zone_rejected", 1),
-        Ok(r) => return viol(out, "misaligned-zone-offset-accepted", format!("ZoneAlloc::create with an unaligned offset returned {r:?}")),
+        Ok(r) => {
+            return viol(
+                out,
+                "misaligned-zone-offset-accepted",
+                format!("ZoneAlloc::create with an unaligned offset returned {r:?}"),
+            );
+        }
         _ => return,
     }
     let mut model = Model::new_free(managed);
@@ -690,36 +911,82 @@ fn q8(rng: &mut Rng, out: &mut RunOut) {
     let mut calls = 0u64;
     for _ in 0..steps {
         let class = rng.below(slots.len()) as u8;
-        let slot = if rng.chance(1, 4) { None } else { Some(rng.below(slots[class as usize])) };
+        let slot = if rng.chance(1, 4) {
+            None
+        } else {
+            Some(rng.below(slots[class as usize]))
+        };
         let order = *rng.pick(&[0usize, 0, 0, 1, 3, 6, 8, 9, 10]);
         let order = order.min(TREE_ORDER);
         let call = match rng.weighted(&[6, 2, 5, 1, 2]) {
-            0 => Call::Get { target: None, order, class, slot },
+            0 => Call::Get {
+                target: None,
+                order,
+                class,
+                slot,
+            },
             1 => {
                 let len = 1usize << order;
                 if len > managed {
                     continue;
                 }
-                Call::Get { target: Some(rng.below(managed / len) * len), order, class, slot }
+                Call::Get {
+                    target: Some(rng.below(managed / len) * len),
+                    order,
+                    class,
+                    slot,
+                }
             }
             2 if !held.is_empty() => {
                 let b = held.swap_remove(rng.below(held.len()));
-                Call::Put { frame: b.frame, order: b.order, class, slot }
+                Call::Put {
+                    frame: b.frame,
+                    order: b.order,
+                    class,
+                    slot,
+                }
             }
             3 => Call::Drain,
             _ => {
                 // frames below the offset must be rejected by the wrappers
                 let below = rng.below(offset.min(zoff));
-                let c_nvm = shift(&Call::Put { frame: below, order: 0, class, slot }, 0);
-                for (name, o) in [("nvm", exec(&nvm, &c_nvm)), ("zone", exec(&zone_alloc, &c_nvm))] {
+                let c_nvm = shift(
+                    &Call::Put {
+                        frame: below,
+                        order: 0,
+                        class,
+                        slot,
+                    },
+                    0,
+                );
+                for (name, o) in [
+                    ("nvm", exec(&nvm, &c_nvm)),
+                    ("zone", exec(&zone_alloc, &c_nvm)),
+                ] {
                     if o != Outcome::Err(ErrKind::Argument) {
-                        return viol(out, "frame-below-offset-accepted", format!("{name}: put of frame {below} below the offset returned {o:?}"));
+                        return viol(
+                            out,
+                            "frame-below-offset-accepted",
+                            format!("{name}: put of frame {below} below the offset returned {o:?}"),
+                        );
                     }
                 }
-                let c_get = Call::Get { target: Some(below), order: 0, class, slot };
-                for (name, o) in [("nvm", exec(&nvm, &c_get)), ("zone", exec(&zone_alloc, &c_get))] {
+                let c_get = Call::Get {
+                    target: Some(below),
+                    order: 0,
+                    class,
+                    slot,
+                };
+                for (name, o) in [
+                    ("nvm", exec(&nvm, &c_get)),
+                    ("zone", exec(&zone_alloc, &c_get)),
+                ] {
                     if o != Outcome::Err(ErrKind::Argument) {
-                        return viol(out, "frame-below-offset-accepted", format!("{name}: get of frame {below} below the offset returned {o:?}"));
+                        return viol(
+                            out,
+                            "frame-below-offset-accepted",
+                            format!("{name}: get of frame {below} below the offset returned {o:?}"),
+                        );
                     }
                 }
                 bump(out, "below_offset_rejected", 2);
@@ -732,34 +999,63 @@ fn q8(rng: &mut Rng, out: &mut RunOut) {
         let c = exec(&zone_alloc, &shift(&call, zoff));
         for (name, off, o) in [("NvmAlloc", offset, &b), ("ZoneAlloc", zoff, &c)] {
             let same = match (&a, o) {
-                (Outcome::GetOk { frame: f, class: c1 }, Outcome::GetOk { frame: g, class: c2 }) => *g == f + off && c1 == c2,
+                (
+                    Outcome::GetOk {
+                        frame: f,
+                        class: c1,
+                    },
+                    Outcome::GetOk {
+                        frame: g,
+                        class: c2,
+                    },
+                ) => *g == f + off && c1 == c2,
                 (x, y) => x == y,
             };
             if !same {
-                return viol(out, "wrapper-result-differs", format!("{call:?}: plain allocator {a:?}, {name} (offset {off}) {o:?}"));
+                return viol(
+                    out,
+                    "wrapper-result-differs",
+                    format!("{call:?}: plain allocator {a:?}, {name} (offset {off}) {o:?}"),
+                );
             }
         }
         if let Outcome::Panic { msg, loc } = &a {
-            out.foreign = Some(Violation::new("C09", panic_signature(msg, loc), format!("{call:?} panicked")));
+            out.foreign = Some(Violation::new(
+                "C09",
+                panic_signature(msg, loc),
+                format!("{call:?} panicked"),
+            ));
             return;
         }
         if let (Call::Get { order, .. }, Outcome::GetOk { frame, .. }) = (&call, &b) {
             let end = frame + (1 << order);
             if end > first_meta_frame || *frame < offset {
-                return viol(out, "frame-overlaps-metadata", format!("{call:?} returned frames {frame}..{end}, metadata starts at frame {first_meta_frame}"));
+                return viol(
+                    out,
+                    "frame-overlaps-metadata",
+                    format!(
+                        "{call:?} returned frames {frame}..{end}, metadata starts at frame {first_meta_frame}"
+                    ),
+                );
             }
         }
         match (&call, &a) {
             (Call::Get { order, .. }, Outcome::GetOk { frame, .. }) => {
                 let blk = Block::new(*frame, *order);
                 if !model.get_allowed(&blk) {
-                    out.foreign = Some(Violation::new("C02", "get-returned-allocated-block", format!("{call:?} -> {a:?}")));
+                    out.foreign = Some(Violation::new(
+                        "C02",
+                        "get-returned-allocated-block",
+                        format!("{call:?} -> {a:?}"),
+                    ));
                     return;
                 }
                 model.apply_get(&blk);
                 held.push(blk);
             }
-            (Call::Put { frame, order, .. }, Outcome::Ok) => model.apply_put(&Block::new(*frame, *order)),
+            (Call::Put { frame, order, .. }, Outcome::Ok) => {
+                model.apply_put(&Block::new(*frame, *order))
+            }
             _ => {}
         }
         // queries are forwarded the same way
@@ -771,11 +1067,21 @@ fn q8(rng: &mut Rng, out: &mut RunOut) {
                 let y = nvm.stats_at(FrameId(f + offset), order).free_frames;
                 let z = zone_alloc.stats_at(FrameId(f + zoff), order).free_frames;
                 if x != y || x != z {
-                    return viol(out, "wrapper-query-differs", format!("stats_at({f}, {order}): plain {x}, nvm {y}, zone {z}"));
+                    return viol(
+                        out,
+                        "wrapper-query-differs",
+                        format!("stats_at({f}, {order}): plain {x}, nvm {y}, zone {z}"),
+                    );
                 }
             }
-            if (nvm.stats().free_frames, nvm.tree_stats().free_frames) != (plain.stats().free_frames, plain.tree_stats().free_frames) {
-                return viol(out, "wrapper-stats-differ", "stats()/tree_stats() differ".to_string());
+            if (nvm.stats().free_frames, nvm.tree_stats().free_frames)
+                != (plain.stats().free_frames, plain.tree_stats().free_frames)
+            {
+                return viol(
+                    out,
+                    "wrapper-stats-differ",
+                    "stats()/tree_stats() differ".to_string(),
+                );
             }
         }
     }
@@ -785,12 +1091,33 @@ fn q8(rng: &mut Rng, out: &mut RunOut) {
     // ---- cold restart (quiescent crash): only the zone survives ----
     drop(nvm);
     // wrong size: one frame less or more
-    let wrong = if rng.chance(1, 2) { total - 1 } else { total + TREE_FRAMES.min(64) };
+    let wrong = if rng.chance(1, 2) {
+        total - 1
+    } else {
+        total + TREE_FRAMES.min(64)
+    };
     let wms = LLFree::metadata_size(&classing, wrong);
-    match guarded(|| NvmAlloc::<LLFree>::create(zone(wrong), true, &classing, vol(wms.local), vol(wms.trees)).map(|_| ())) {
+    match guarded(|| {
+        NvmAlloc::<LLFree>::create(zone(wrong), true, &classing, vol(wms.local), vol(wms.trees))
+            .map(|_| ())
+    }) {
         Ok(Err(Error::Initialization)) => bump(out, "recover_wrong_size_rejected", 1),
-        Ok(r) => return viol(out, "recover-with-different-size", format!("create(recover=true) with {wrong} instead of {total} frames returned {r:?}")),
-        Err(Outcome::Panic { msg, loc }) => return viol(out, &panic_signature(&msg, &loc), format!("create panicked: {msg} at {loc}")),
+        Ok(r) => {
+            return viol(
+                out,
+                "recover-with-different-size",
+                format!(
+                    "create(recover=true) with {wrong} instead of {total} frames returned {r:?}"
+                ),
+            );
+        }
+        Err(Outcome::Panic { msg, loc }) => {
+            return viol(
+                out,
+                &panic_signature(&msg, &loc),
+                format!("create panicked: {msg} at {loc}"),
+            );
+        }
         Err(_) => return,
     }
     // a differently sized region that shares its END (and therefore the header page) with the
@@ -807,39 +1134,73 @@ fn q8(rng: &mut Rng, out: &mut RunOut) {
             }
             (aligned - tree_bytes, total + TREE_FRAMES)
         };
-        let z: &'static mut [Frame] = unsafe { std::slice::from_raw_parts_mut(start as *mut Frame, len) };
+        let z: &'static mut [Frame] =
+            unsafe { std::slice::from_raw_parts_mut(start as *mut Frame, len) };
         let zms = LLFree::metadata_size(&classing, len);
-        match guarded(|| NvmAlloc::<LLFree>::create(z, true, &classing, vol(zms.local), vol(zms.trees)).map(|_| ())) {
+        match guarded(|| {
+            NvmAlloc::<LLFree>::create(z, true, &classing, vol(zms.local), vol(zms.trees))
+                .map(|_| ())
+        }) {
             Ok(Err(Error::Initialization)) => bump(out, "recover_same_end_other_size_rejected", 1),
             Ok(r) => {
                 return viol(
                     out,
                     "recover-with-different-size",
-                    format!("create(recover=true) on a region of {len} frames that only shares its last (header) page with the instance of {total} frames returned {r:?}"),
+                    format!(
+                        "create(recover=true) on a region of {len} frames that only shares its last (header) page with the instance of {total} frames returned {r:?}"
+                    ),
                 );
             }
-            Err(Outcome::Panic { msg, loc }) => return viol(out, &panic_signature(&msg, &loc), format!("create panicked: {msg} at {loc}")),
+            Err(Outcome::Panic { msg, loc }) => {
+                return viol(
+                    out,
+                    &panic_signature(&msg, &loc),
+                    format!("create panicked: {msg} at {loc}"),
+                );
+            }
             Err(_) => return,
         }
     }
-    let rec = match guarded(|| NvmAlloc::<LLFree>::create(zone(total), true, &classing, vol(ms.local), vol(ms.trees))) {
+    let rec = match guarded(|| {
+        NvmAlloc::<LLFree>::create(zone(total), true, &classing, vol(ms.local), vol(ms.trees))
+    }) {
         Ok(Ok(a)) => a,
-        Ok(Err(e)) => return viol(out, "recover-error", format!("create(recover=true) on its own instance returned {e:?}")),
-        Err(Outcome::Panic { msg, loc }) => return viol(out, &format!("recover-{}", panic_signature(&msg, &loc)), format!("recovery panicked: {msg} at {loc}")),
+        Ok(Err(e)) => {
+            return viol(
+                out,
+                "recover-error",
+                format!("create(recover=true) on its own instance returned {e:?}"),
+            );
+        }
+        Err(Outcome::Panic { msg, loc }) => {
+            return viol(
+                out,
+                &format!("recover-{}", panic_signature(&msg, &loc)),
+                format!("recovery panicked: {msg} at {loc}"),
+            );
+        }
         Err(_) => return,
     };
     bump(out, "fault_cold_restart", 1);
     let r = guarded(|| {
         if rec.frames() != managed {
-            return Some(format!("recovered instance manages {} frames, created one {managed}", rec.frames()));
+            return Some(format!(
+                "recovered instance manages {} frames, created one {managed}",
+                rec.frames()
+            ));
         }
         for f in 0..managed {
             let free = rec.stats_at(FrameId(f + offset), 0).free_frames == 1;
             if free == model.alloc[f] {
-                return Some(format!("frame {f} free={free} after recovery, was free={} before", !model.alloc[f]));
+                return Some(format!(
+                    "frame {f} free={free} after recovery, was free={} before",
+                    !model.alloc[f]
+                ));
             }
         }
-        if rec.stats().free_frames != model.free_frames() || rec.tree_stats().free_frames != model.free_frames() {
+        if rec.stats().free_frames != model.free_frames()
+            || rec.tree_stats().free_frames != model.free_frames()
+        {
             return Some(format!(
                 "free counts after recovery {} / {} (fast), expected {}",
                 rec.stats().free_frames,
@@ -851,7 +1212,11 @@ fn q8(rng: &mut Rng, out: &mut RunOut) {
     });
     match r {
         Ok(Some(d)) => viol(out, "recovered-state-differs", d),
-        Err(Outcome::Panic { msg, loc }) => viol(out, &panic_signature(&msg, &loc), format!("query after recovery panicked: {msg} at {loc}")),
+        Err(Outcome::Panic { msg, loc }) => viol(
+            out,
+            &panic_signature(&msg, &loc),
+            format!("query after recovery panicked: {msg} at {loc}"),
+        ),
         _ => {}
     }
     out.hash = h.finish();
@@ -887,13 +1252,23 @@ impl Drop for Pool {
 
 fn shift(c: &Call, off: usize) -> Call {
     match c {
-        Call::Get { target, order, class, slot } => Call::Get {
+        Call::Get {
+            target,
+            order,
+            class,
+            slot,
+        } => Call::Get {
             target: target.map(|t| t + off),
             order: *order,
             class: *class,
             slot: *slot,
         },
-        Call::Put { frame, order, class, slot } => Call::Put {
+        Call::Put {
+            frame,
+            order,
+            class,
+            slot,
+        } => Call::Put {
             frame: frame + off,
             order: *order,
             class: *class,
@@ -934,7 +1309,11 @@ fn qb(ctx: &Ctx, rng: &mut Rng, out: &mut RunOut) {
             if i == which {
                 match fault {
                     0 => {
-                        desc = format!("buffer {i} one byte short ({} of {})", sizes[i].saturating_sub(1), sizes[i]);
+                        desc = format!(
+                            "buffer {i} one byte short ({} of {})",
+                            sizes[i].saturating_sub(1),
+                            sizes[i]
+                        );
                         arenas[i].slice_at(0, sizes[i].saturating_sub(1)).unwrap()
                     }
                     1 => {
@@ -974,7 +1353,9 @@ fn qb(ctx: &Ctx, rng: &mut Rng, out: &mut RunOut) {
             1 => (so.saturating_sub(64)) / 64 * 64,
             _ => (so / 2) / 64 * 64,
         };
-        desc = format!("buffer {which} overlaps buffer {other} at byte offset {off} (sizes {sw}, {so})");
+        desc = format!(
+            "buffer {which} overlaps buffer {other} at byte offset {off} (sizes {sw}, {so})"
+        );
         let nb = unsafe { ar.slice_at(off, sw) }.unwrap();
         match which {
             0 => local = nb,
@@ -983,7 +1364,19 @@ fn qb(ctx: &Ctx, rng: &mut Rng, out: &mut RunOut) {
         }
     }
     let expect_fail = sizes[which] > 0;
-    let r = guarded(|| LLFree::new(frames, cfg.init(), &classing, MetaData { local, trees, lower }).map(|_| ()));
+    let r = guarded(|| {
+        LLFree::new(
+            frames,
+            cfg.init(),
+            &classing,
+            MetaData {
+                local,
+                trees,
+                lower,
+            },
+        )
+        .map(|_| ())
+    });
     let mut h = Hasher::default();
     h.add_bytes(desc.as_bytes());
     h.add(frames as u64);
@@ -995,7 +1388,10 @@ fn qb(ctx: &Ctx, rng: &mut Rng, out: &mut RunOut) {
         1 => bump(out, "badbuf_misaligned", 1),
         _ => bump(out, "badbuf_overlapping", 1),
     }
-    out.sample = J::obj().set("family", "QB").set("config", cfg.to_json()).set("fault", desc.clone());
+    out.sample = J::obj()
+        .set("family", "QB")
+        .set("config", cfg.to_json())
+        .set("fault", desc.clone());
     if !expect_fail {
         return;
     }
@@ -1003,8 +1399,17 @@ fn qb(ctx: &Ctx, rng: &mut Rng, out: &mut RunOut) {
         Ok(Err(Error::Initialization)) => {}
         Ok(other) => out.violations.push(Violation::new(
             "C08",
-            format!("bad-buffer-accepted:{}", match fault { 0 => "short", 1 => "misaligned", _ => "overlap" }),
-            format!("{cfg:?}: {desc}: LLFree::new returned {other:?} instead of Err(Initialization)"),
+            format!(
+                "bad-buffer-accepted:{}",
+                match fault {
+                    0 => "short",
+                    1 => "misaligned",
+                    _ => "overlap",
+                }
+            ),
+            format!(
+                "{cfg:?}: {desc}: LLFree::new returned {other:?} instead of Err(Initialization)"
+            ),
         )),
         Err(Outcome::Panic { msg, loc }) => out.violations.push(Violation::new(
             "C08",
@@ -1031,17 +1436,31 @@ fn qm(ctx: &Ctx, rng: &mut Rng, out: &mut RunOut) {
     let rem = match rng.below(5) {
         0 => 0,
         1 => rng.range(1, 3),
-        2 => rng.range(1, TREE_FRAMES / HUGE_FRAMES) * HUGE_FRAMES - if rng.chance(1, 2) { 0 } else { rng.range(1, 65) },
+        2 => {
+            rng.range(1, TREE_FRAMES / HUGE_FRAMES) * HUGE_FRAMES
+                - if rng.chance(1, 2) {
+                    0
+                } else {
+                    rng.range(1, 65)
+                }
+        }
         3 => TREE_FRAMES - rng.range(1, 65),
         _ => rng.range(1, TREE_FRAMES - 1),
     };
-    let frames = (t * TREE_FRAMES + rem).max(1) - if rem == 0 && rng.chance(1, 8) { TREE_FRAMES - 1 } else { 0 };
+    let frames = (t * TREE_FRAMES + rem).max(1)
+        - if rem == 0 && rng.chance(1, 8) {
+            TREE_FRAMES - 1
+        } else {
+            0
+        };
     let kind = *rng.pick(&[ClassKind::Simple, ClassKind::Movable, ClassKind::Zeroed]);
     let cfg = Config {
         frames,
         alloc_all: rng.chance(1, 2),
         kind,
-        slots: (0..kind.classes()).map(|_| *rng.pick(&[0usize, 1, 1, 2, 3, 4, 7, 8])).collect(),
+        slots: (0..kind.classes())
+            .map(|_| *rng.pick(&[0usize, 1, 1, 2, 3, 4, 7, 8]))
+            .collect(),
     };
     let mut h = Hasher::default();
     h.add(frames as u64);
@@ -1049,18 +1468,29 @@ fn qm(ctx: &Ctx, rng: &mut Rng, out: &mut RunOut) {
     h.add_bytes(format!("{:?}{kind:?}", cfg.slots).as_bytes());
     out.hash = h.finish();
     out.nontrivial = true;
-    out.sample = J::obj().set("family", "QM").set("config", cfg.to_json()).set("schedule", "single-thread");
+    out.sample = J::obj()
+        .set("family", "QM")
+        .set("config", cfg.to_json())
+        .set("schedule", "single-thread");
     bump(out, "metadata_sweep_configs", 1);
     let at_end = rng.chance(2, 3);
     let bufs = unsafe { ctx.arenas.bufs(&cfg, at_end, rng.below(256) as u8) };
     let alloc = match create(&cfg, cfg.init(), bufs) {
         Ok(Ok(a)) => a,
         Ok(Err(e)) => {
-            out.violations.push(Violation::new("C18", "init-error", format!("{cfg:?}: new returned {e:?}")));
+            out.violations.push(Violation::new(
+                "C18",
+                "init-error",
+                format!("{cfg:?}: new returned {e:?}"),
+            ));
             return;
         }
         Err(Outcome::Panic { msg, loc }) => {
-            out.violations.push(Violation::new("C18", format!("init-{}", panic_signature(&msg, &loc)), format!("{cfg:?}: new panicked: {msg} at {loc}")));
+            out.violations.push(Violation::new(
+                "C18",
+                format!("init-{}", panic_signature(&msg, &loc)),
+                format!("{cfg:?}: new panicked: {msg} at {loc}"),
+            ));
             return;
         }
         Err(_) => return,
@@ -1074,10 +1504,18 @@ fn qm(ctx: &Ctx, rng: &mut Rng, out: &mut RunOut) {
             for _ in 0..3 {
                 let class = rng.below(cfg.slots.len()) as u8;
                 let n = cfg.slots[class as usize];
-                let slot = if n == 0 || rng.chance(1, 3) { None } else { Some(rng.below(n)) };
+                let slot = if n == 0 || rng.chance(1, 3) {
+                    None
+                } else {
+                    Some(rng.below(n))
+                };
                 let order = *rng.pick(&[0usize, 0, 3, 6, HUGE_ORDER]);
                 let l = 1usize << order;
-                let f = if len >= l { base + rng.below(len / l) * l } else { base };
+                let f = if len >= l {
+                    base + rng.below(len / l) * l
+                } else {
+                    base
+                };
                 let last = base + len - 1;
                 let _ = alloc.stats_at(FrameId(last), 0);
                 let _ = alloc.stats_at(FrameId(last), HUGE_ORDER);
@@ -1096,8 +1534,15 @@ fn qm(ctx: &Ctx, rng: &mut Rng, out: &mut RunOut) {
                     let _ = alloc.put(g, request(order, class, slot));
                 }
                 let _ = alloc.change_tree(
-                    llfree::TreeMatch { id: Some(llfree::TreeId(tree)), class: None, free: 0 },
-                    llfree::TreeChange { class: Some(llfree::Class(class)), operation: None },
+                    llfree::TreeMatch {
+                        id: Some(llfree::TreeId(tree)),
+                        class: None,
+                        free: 0,
+                    },
+                    llfree::TreeChange {
+                        class: Some(llfree::Class(class)),
+                        operation: None,
+                    },
                 );
                 calls += 10;
             }
@@ -1109,6 +1554,10 @@ fn qm(ctx: &Ctx, rng: &mut Rng, out: &mut RunOut) {
     });
     bump(out, "calls", calls);
     if let Err(Outcome::Panic { msg, loc }) = r {
-        out.foreign = Some(Violation::new("C09", panic_signature(&msg, &loc), format!("{cfg:?}: {msg} at {loc}")));
+        out.foreign = Some(Violation::new(
+            "C09",
+            panic_signature(&msg, &loc),
+            format!("{cfg:?}: {msg} at {loc}"),
+        ));
     }
 }
